@@ -42,6 +42,23 @@ def main():
         if _escape_value(v) != b"".join(img.get(c, bytes([c])) for c in v):
             if len(assumption_failures) < 3:
                 assumption_failures.append({"what": "_escape_value is not the per-byte image concatenation assumed by the reader-side contracts (ESC_SPEC)", "value": v.hex(), "escaped": _escape_value(v).hex()})
+    # the second ASSUMED relation (WELL_ESC in contracts/c20_config.py): read with the one-bit "previous byte was an unescaped
+    # backslash" automaton, the escaped form has no unescaped quote, no dangling backslash and - for values written bare - no
+    # unescaped comment character
+    from dulwich.config import _format_string as _fmt
+    for v in values:
+        cases += 1
+        e = _escape_value(v)
+        st, ok, bare_ok = 0, True, True
+        for c in e:
+            if st == 0 and c == 34:
+                ok = False
+            if st == 0 and c in (35, 59):
+                bare_ok = False
+            st = 1 if (st == 0 and c == 92) else 0
+        written_bare = _fmt(v) == e
+        if (not ok or st != 0 or (written_bare and not bare_ok)) and len(assumption_failures) < 3:
+            assumption_failures.append({"what": "_escape_value output is not well escaped (WELL_ESC / NO_BARE_COMMENT assumed by _strip_comments#quoted/#bare)", "value": v.hex(), "escaped": e.hex()})
     from dulwich.config import _escape_subsection, _unescape_subsection
     for v in values:
         if 10 in v or 0 in v:
